@@ -37,17 +37,10 @@ func NewMask(group kyber.Group, publics []kyber.Point, myKey kyber.Point) (*Mask
 	}
 	m.mask = make([]byte, m.Len())
 
-	if myKey != nil {
-		for i, key := range publics {
-			if key.Equal(myKey) {
-				err := m.SetBit(i, true)
-				return m, err
-			}
-		}
-
-		return nil, errors.New("key not found")
-	}
-
+	// The coefficients and terms are needed by every mask, whether or not it
+	// starts with the caller's own bit set: compute them before looking for
+	// myKey, otherwise AggregateSignatures/AggregatePublicKeys index into
+	// nil slices.
 	var err error
 	m.publicCoefs, err = hashPointToR(group, publics)
 	if err != nil {
@@ -58,6 +51,17 @@ func NewMask(group kyber.Group, publics []kyber.Point, myKey kyber.Point) (*Mask
 	for i, pub := range publics {
 		pubC := pub.Clone().Mul(m.publicCoefs[i], pub)
 		m.publicTerms[i] = pubC.Add(pubC, pub)
+	}
+
+	if myKey != nil {
+		for i, key := range publics {
+			if key.Equal(myKey) {
+				err := m.SetBit(i, true)
+				return m, err
+			}
+		}
+
+		return nil, errors.New("key not found")
 	}
 
 	return m, nil
